@@ -111,7 +111,7 @@ func runC19(c *Ctx) {
 		}
 		c.R.Exhaustive["19 wanted lists x 4 SASL configurations x 32 advertised sets x 3 replies x SASL outcomes"] = c.Only == ""
 	case "big":
-		total := c.Pick(60, 4000)
+		total := c.Pick(200, 8000)
 		per := total / parts
 		for i := 0; i < per; i++ {
 			idx := part*per + i
